@@ -18,7 +18,7 @@ pub fn props() -> Vec<Prop> {
         id: "C04",
         run: c04,
         tools: Some(miri_step),
-        rule: "(1) controlled scheduler over the guard hook: real threads run the real Memfs, one runnable at a time, yield points at the start of every call and before every guard acquisition made while holding no guard; every schedule of every small program is enumerated depth-first by re-execution (quick: all 2-thread x 1-call programs over the ~45-call alphabet + seeded 2x2 / 3x1 / 2x3 programs; thorough: + 3x2 programs and more seeds; schedule cap 4000 per program, a cap hit is inconclusive). Each execution is checked for linearizability against SEQUENTIAL MEMFS ITSELF (some order of the calls respecting program order and real-time precedence gives every call the same result and the same final snapshot), append exactly-once (unique tokens), nested guard acquisition, panics / poisoned lock, and the C03 walker at quiescence. (2) free-running stress: the same programs and 8-thread mixes released by a barrier on 16 cores, stamped by a global atomic clock, same checks, plus a wait-state monitor fed by the guard events (all threads inside before-acquire..release with no guard event for 30 s = deadlock certificate); the evidence counts how many call pairs really overlapped. (3) Miri (-Zmiri-many-seeds) on a hook-free executor: data races, deadlocks, UB under its own randomised preemption. distinct_nontrivial = distinct (program shape, operation multiset, linearizable?) tuples + distinct schedules.",
+        rule: "(1) controlled scheduler over the guard hook: real threads run the real Memfs, one runnable at a time, yield points at the start of every call and before every guard acquisition made while holding no guard; every schedule of every small program is enumerated depth-first by re-execution (quick: all 2-thread x 1-call programs over the ~45-call alphabet + seeded 2x2 / 3x1 / 2x3 programs; thorough: + 3x2 programs and more seeds; schedule cap 4000 per program, a cap hit is inconclusive). Each execution is checked for linearizability against SEQUENTIAL MEMFS ITSELF (some order of the calls respecting program order and real-time precedence gives every call the same result and the same final snapshot), append exactly-once (unique tokens), nested guard acquisition, panics / poisoned lock, and the C03 walker at quiescence. (2) free-running stress: the same programs and 8-thread mixes released by a barrier on 16 cores, stamped by a global atomic clock, same checks, plus a wait-state monitor fed by the guard events (all threads inside before-acquire..release with no guard event for 30 s = deadlock certificate); the evidence counts how many call pairs really overlapped. (3) Miri (-Zmiri-many-seeds) on a hook-free executor: data races, deadlocks, UB under its own randomised preemption. distinct_nontrivial = distinct (program shape, operation multiset, linearizable?) tuples + distinct schedules. Later additions to the alphabet: relative-path calls next to the calls that move the cwd; children for the directory that remove() takes away. An execution in which a multi-entry call failed half way (other than DoesNotExist) is not judged for linearizability (counted).",
         assumptions: &[
             "guard-boundary granularity is complete as long as all shared state stays behind read_guard/write_guard (cross-checked by Miri's race detector)",
             "the sequential specification is Memfs itself, so C04 does not depend on the reference model of C01",
